@@ -26,11 +26,18 @@ def handle (j : Json) : IO Unit := do
   let impl := jget j "impl"
   if jstr (jget impl "start_err") != "" then
     emit case false true "start-error" "" (jstr (jget impl "start_err")); return
+  -- a step of a fleet history (kind "c14h"): the same judgement as a one-request case, on the step's own candidates
+  let hist := jstr (jget j "kind") == "c14h"
+  if jstr (jget impl "unsettled") != "" then
+    emit case true true "trivial" "" ("step not judged: " ++ jstr (jget impl "unsettled")); return
   let types := jstrList (jget sc "types")
   let enabled := jbool (jget sc "enabled")
   let refuse := (jarr (jget sc "refuse")).map jbool
   let invalid := jbool (jget sc "invalid")
-  let eps : List Ep := types.zipIdx.map (fun (t, i) => ⟨i, t⟩)
+  -- the endpoints after filtering: healthy (not `down`) and serving the model (`has`; absent = everybody does)
+  let down := (jarr (jget sc "down")).map jbool
+  let has := (jarr (jget sc "has")).map jbool
+  let eps : List Ep := (types.zipIdx.map (fun (t, i) => (⟨i, t⟩ : Ep))).filter (fun e => !down.getD e.id false && has.getD e.id true)
   let refuses (i : Nat) : Bool := refuse.getD i false
   -- histories: endpoint i closes the connection without answering / its engine breaker is open (skipped)
   let faults := jstrList (jget sc "fault")
@@ -77,10 +84,11 @@ def handle (j : Json) : IO Unit := do
     else if !noMixing obs then "passthrough-and-translation-mixed-in-one-request"
     else "x-olla-mode-header-wrong"
   let cls := String.join (types.map (fun t => if nativeBy genSupport t then "N" else if resolvedNative t then "a" else "o"))
-  let branch := (if invalid then "rejected" else if r.decision.isPassthrough then "passthrough" else "translation") ++
+  let branch := (if hist then "history:" else "") ++ (if eps.isEmpty then "no-candidates" else if invalid then "rejected" else if r.decision.isPassthrough then "passthrough" else "translation") ++
     (if (selectedList r.trace).length > 1 then "-failover" else "") ++
     (match r.result with | .exhausted => "-exhausted" | _ => "") ++ ":" ++ cls
   let note := if spec && agree then "" else
+    (if hist then s!"history {jnat (jget sc "hist")} step {jnat (jget sc "step")} (one stack since step 0; fleet move '{jstr (jget sc "move")}'), model {jstr (jget sc "model")}, down {down}, serves the model {has}, candidates {eps.map (·.id)}: " else "") ++
     s!"types {types} passthrough_enabled {enabled} refuse {refuse} invalid {invalid}: client {cStatus} X-Olla-Mode '{modeS}', backends got {deliveries.map showD}, stats {stats}; model {mStatus} mode {r.modeHeader}, {mDeliveries.map showD}, stats {mStats}"
   emit case agree spec branch sig note
     (Json.mkObj [("decision", toJson (if r.decision.isPassthrough then "passthrough" else "translation")),
